@@ -15,7 +15,8 @@ import z3
 
 from ..core import Ctx, Inconclusive, SBool, SInt, SReal, Unsupported, explore, rebind, s_int, s_min, term, wrap
 
-TESTFILE = "/repo/tests/data/parkes_4bit.sf"
+import os
+TESTFILE = os.path.join(os.environ.get("SYMX_REPO", "/repo"), "tests/data/parkes_4bit.sf")
 
 
 class Rows:
